@@ -110,6 +110,20 @@ fn jobs(set: &str) -> Vec<Job> {
     for (cn, c) in &comps {
         v.push(Job { name: format!("kinds-{cn}-one"), logical: kinds_logical(), comp: *c, packaging: Packaging::OneFile, concat: false });
     }
+    // contents handed over as files and as windows of files
+    for (cn, c) in &comps {
+        let mut l = shape("small");
+        l.name = "filesrc".into();
+        l.contents = vec![];
+        for (k, (src, hint)) in [(Src::FileRange, Hint::Yes), (Src::FileRange, Hint::No), (Src::FileWhole, Hint::Yes), (Src::FileWhole, Hint::No)].into_iter().enumerate() {
+            l.contents.push(Item { len: 1500 + k, entropy: Entropy::Low, hint, src, tag: 60 + k as u64 });
+        }
+        for e in l.dir.entries.iter_mut() {
+            let last = e.vals.len() - 1;
+            e.vals[last] = Val::C(1, 0);
+        }
+        v.push(Job { name: format!("filesrc-{cn}-one"), logical: l, comp: *c, packaging: Packaging::OneFile, concat: false });
+    }
     // more than 256 / 1024 blobs in one cluster (blob index above one byte, info table above 4 KiB),
     // raw and compressed
     for (cn, c) in &comps {
@@ -169,6 +183,15 @@ fn jobs(set: &str) -> Vec<Job> {
             let alpha: Vec<Vec<u8>> = vec![vec![], vec![0], b"a".to_vec(), vec![0xff; prefix + 1], vec![b'q'; 300], b"ab\0".to_vec(), vec![b'r'; 255], (0..256u32).map(|i| i as u8).collect(), (0..257u32).map(|i| (i * 7) as u8).collect(), (0..65_536u32).map(|i| (i * 13) as u8).collect()];
             for m in multisets(alpha.len(), 2) {
                 dirs.push(one_col(PropSpec::A { prefix, store: 0 }, vec![store], m.iter().map(|&i| Val::A(alpha[i].clone())).collect()));
+            }
+        }
+    }
+    // the same value three times and more in one store
+    for prefix in [0usize, 3] {
+        for store in [StoreKind::Plain, StoreKind::Indexed] {
+            for pat in ["VVV", "VWVVV", "WVVVWW"] {
+                let vals = pat.chars().map(|ch| Val::A(if ch == 'V' { b"value-v".to_vec() } else { b"other-w!".to_vec() })).collect();
+                dirs.push(one_col(PropSpec::A { prefix, store: 0 }, vec![store], vals));
             }
         }
     }
